@@ -395,4 +395,12 @@ def obligations(tier, seed):
                               {"polygons": "two concrete overlapping squares", "z": "symbolic, |z|>0.5"},
                               [getattr(R.PolygonalRegion, op), R.regionFromShapelyObject], ["shapely boolean operations on concrete polygons (real library)"],
                               system_replay=_sys_replay_heights(op)))
+    # MeshVolumeRegion.intersects / containsObject belong to the region algebra too (shared with C04)
+    from harness import c04_overlap as C4
+
+    o4 = dict(total_timeout=300.0, vc_timeout=20.0)
+    obs.append(Obligation("volume-intersects-volume[shared with C04]", C4.h_volume_intersects, "MeshVolumeRegion.intersects passes 1-5 return the ground truth, whichever operand is the receiver",
+                          {"library answers": "symbolic under axioms A1-A6"}, [R.MeshVolumeRegion.intersects], C4.ASSUMPTIONS[:6], opts=o4))
+    obs.append(Obligation("volume-contains-object[shared with C04]", C4.h_volume_contains_object, "MeshVolumeRegion.containsObject passes 1-5",
+                          {"library answers": "symbolic under axioms B1-B5"}, [R.MeshVolumeRegion.containsObject], C4.CONTAIN_AXIOMS, opts=o4))
     return obs
